@@ -11,6 +11,7 @@ import (
 	"k8s.io/klog/v2"
 
 	_ "verif/mc/checks/c11"
+	_ "verif/mc/checks/c17"
 	"verif/mc/registry"
 )
 
